@@ -326,8 +326,9 @@ Theorem c04_only_optional_omitted_partial : forall reqf apex cls wide recs z buf
         ResolveRepr.norm_rec r = ResolveS.resolve reqf apex cls (accepted apex cls recs) qname qtype /\
         Forall2 (rr_rel xparts) (map q2a (rc_an r)) (m_an m) /\
         Forall2 (rr_rel xparts) (map q2a (rc_ns r)) (m_ns m) /\
-        exists M X O dsM dsX dsP,
-          map q2a (rc_ar r) = M ++ O /\ Sub X O /\
+        exists M X Oq dsM dsX dsP,
+          map q2a (rc_ar r) = M ++ map q2a Oq /\ Sub X (map q2a Oq) /\
+          Forall (fun q => ~ in_bailiwick (rc_ns r) q) Oq /\
           m_ar m = dsM ++ dsX ++ dsP /\ Forall2 (rr_rel xparts) M dsM /\ Forall2 (rr_rel xparts) X dsX /\
           forallb is_pseudo dsP = true
     | _ => True
@@ -373,8 +374,9 @@ Theorem c04_clause_iv : forall reqf apex cls wide recs z buf tcp id rd qname qty
        ResolveRepr.norm_rec r = ResolveS.resolve reqf apex cls (accepted apex cls recs) qname qtype /\
        Forall2 (rr_rel xparts) (map q2a (rc_an r)) (m_an m) /\
        Forall2 (rr_rel xparts) (map q2a (rc_ns r)) (m_ns m) /\
-       exists M X O dsM dsX dsP,
-         map q2a (rc_ar r) = M ++ O /\ Sub X O /\
+       exists M X Oq dsM dsX dsP,
+         map q2a (rc_ar r) = M ++ map q2a Oq /\ Sub X (map q2a Oq) /\
+         Forall (fun q => ~ in_bailiwick (rc_ns r) q) Oq /\
          m_ar m = dsM ++ dsX ++ dsP /\ Forall2 (rr_rel xparts) M dsM /\ Forall2 (rr_rel xparts) X dsX /\
          forallb is_pseudo dsP = true).
 Proof. exact respond_w_clause_iv. Qed.
